@@ -31,9 +31,10 @@ Patterns == {"f", "d", "l", "sub"}
 
 VARIABLES present,   \* set of optional inside nodes that exist
           linkAt, target, op, pattern,
-          fault      \* a nested entry whose removal the backend refuses (<<>> = none): the call must then not report success
+          fault,     \* a nested entry whose removal the backend refuses (<<>> = none): the call must then not report success
+          spelling   \* "plain" | "blanks": the directory names begin or end with a blank (the semantics does not depend on it)
 
-vars == <<present, linkAt, target, op, pattern, fault>>
+vars == <<present, linkAt, target, op, pattern, fault, spelling>>
 
 IsPrefix(a, b) == Len(a) <= Len(b) /\ SubSeq(b, 1, Len(a)) = a
 Parent(p) == SubSeq(p, 1, Len(p) - 1)
@@ -51,6 +52,7 @@ Init == /\ present \in SUBSET Inside /\ linkAt \in LinkPlaces /\ target \in Targ
         /\ op \in Ops /\ pattern \in Patterns
         /\ (op \in {"RmLink", "RmLinkTrailing"} => target # "none")
         /\ fault \in {<<>>} \cup (IF op \in {"Rm", "CleanDir"} /\ target = "none" THEN present ELSE {})
+        /\ spelling \in {"plain", "blanks"} /\ (spelling = "blanks" => (fault = <<>> /\ op \in {"Rm", "CleanDir", "RmExcluding", "CleanDirExcluding"}))
         /\ (op \notin {"RmExcluding", "CleanDirExcluding"} => pattern = "f")     \* pattern only matters for the excluding entry points
 Next == UNCHANGED vars
 Spec == Init /\ [][Next]_vars
@@ -93,7 +95,7 @@ ToPath(p) == p
 \* with a refused removal the tree cannot be gone: success is then a lie (the expected tree stays the fault-free one, so that
 \* "success but entries remain" is what the judge sees)
 FaultMeansFailure == fault # <<>> => fault \in Removed
-Scenario == [present |-> present, linkAt |-> linkAt, target |-> target, op |-> op, pattern |-> (IF Excluding THEN pattern ELSE ""), fault |-> fault,
+Scenario == [present |-> present, linkAt |-> linkAt, target |-> target, op |-> op, pattern |-> (IF Excluding THEN pattern ELSE ""), fault |-> fault, spelling |-> spelling,
              after |-> After, removed |-> Removed, protected |-> {n \in Sub(Start) : Protected(n)}]
 Emit == PrintT(<<"BEHAVIOUR", ToJson(Scenario)>>)
 =============================================================================
